@@ -127,7 +127,11 @@ structure Acc where
   getter : Bool
   deriving DecidableEq, Repr, Inhabited
 
-def Acc.isSetter (a : Acc) : Bool := !a.getter && a.name.startsWith "Set"
+/-- `strings.HasPrefix(s, "Set")` / `trimLeftOnce(s, "Set")` on the character list (kernel-reducible) -/
+def hasSetPrefix (s : String) : Bool := ['S', 'e', 't'].isPrefixOf s.toList
+def trimSet (s : String) : String := if hasSetPrefix s then String.ofList (s.toList.drop 3) else s
+
+def Acc.isSetter (a : Acc) : Bool := !a.getter && hasSetPrefix a.name
 
 structure NType where
   name : String
@@ -179,6 +183,28 @@ def switchOf (fl : NFlags) (t : NType) : Bool × Bool :=
     | none => (true, true)
   else (true, true)
 
+/-- names in `getsetMethods` that count as getters (`get = true`) / setters -/
+def accNames (accs : List Acc) (get : Bool) : List String :=
+  if get then (accs.filter (·.getter)).map (·.name) else (accs.filter (·.isSetter)).map (·.name)
+
+/-- the accessor name makeJson looks for -/
+def accKey (get : Bool) (n : String) : String := if get then Transfer.pascalS n else "Set" ++ Transfer.pascalS n
+
+def flagOf (get : Bool) (t : NType) (f : Ctor.Field) : Bool := if get then (flagsOf t f).1 else (flagsOf t f).2
+
+/-- makeJson: unexported visible fields read through a getter (`get`) / written through a setter -/
+def jpick (get : Bool) (t : NType) (accs : List Acc) (unexp : List Ctor.Field) : List String :=
+  (unexp.filter (fun f => flagOf get t f || (accNames accs get).contains (accKey get f.name))).map (·.name)
+
+/-- makeGetSet, embedded entries: accessors of the visible `<E>Getter` / `<E>Setter` interfaces -/
+def embedAccs (sw : Bool × Bool) (files : Disk) (embeds : List String) : List Acc :=
+  embeds.flatMap (fun e =>
+    (if sw.1 then ((lookupIface files (e ++ "Getter")).getD []).map (fun m => ({ name := m, getter := true } : Acc)) else [])
+    ++ (if sw.2 then ((lookupIface files (e ++ "Setter")).getD []).map (fun m => ({ name := m, getter := false } : Acc)) else []))
+
+def embedIfaces (on : Bool) (files : Disk) (suffix : String) (embeds : List String) : List (String × List String) :=
+  if on then embeds.filterMap (fun e => (lookupIface files (e ++ suffix)).map (fun ms => (e, ms))) else []
+
 def newStep (lk : Leaks) (fl : NFlags) (files : Disk) (st : NSt) (t : NType) : NSt × Option NOut :=
   -- MakeData: `g.getter = true; g.setter = true; g.data = New…`, then parseFields
   let hasNewIn := lk.hasNew && st.hasNew
@@ -189,29 +215,25 @@ def newStep (lk : Leaks) (fl : NFlags) (files : Disk) (st : NSt) (t : NType) : N
   -- makeGetSet
   let once := onceAux fields []
   let embeds := (once.filter (·.isEmbeded)).map (·.name)
-  let getE := if sw.1 then embeds.filterMap (fun e => (lookupIface files (e ++ "Getter")).map (fun ms => (e, ms))) else []
-  let setE := if sw.2 then embeds.filterMap (fun e => (lookupIface files (e ++ "Setter")).map (fun ms => (e, ms))) else []
-  let accs := accsIn ++ (once.filter (·.isEmbeded)).flatMap (fun f =>
-      (if sw.1 then ((lookupIface files (f.name ++ "Getter")).getD []).map (fun m => ({ name := m, getter := true } : Acc)) else [])
-      ++ (if sw.2 then ((lookupIface files (f.name ++ "Setter")).getD []).map (fun m => ({ name := m, getter := false } : Acc)) else []))
+  let getE := embedIfaces sw.1 files "Getter" embeds
+  let setE := embedIfaces sw.2 files "Setter" embeds
+  let accs := accsIn ++ embedAccs sw files embeds
   let plain := once.filter (fun f => !f.isEmbeded)
   let getList := if sw.1 then (plain.filter (fun f => (flagsOf t f).1)).map (·.name) else []
   let setList := if sw.2 then (plain.filter (fun f => (flagsOf t f).2)).map (·.name) else []
   -- makeNew
-  let g := Ctor.gen t.tree hasNewIn
+  let params := (Ctor.gen t.tree hasNewIn).params
   -- makeJson
-  let allGet := (accs.filter (·.getter)).map (·.name)
-  let allSet := (accs.filter (·.isSetter)).map (·.name)
   let vis := fields.filter (fun f => !f.isShadowed && !f.isEmbeded)
   let unexp := vis.filter (fun f => !exported f.name)
-  let jget := (unexp.filter (fun f => (flagsOf t f).1 || allGet.contains (Transfer.pascalS f.name))).map (·.name)
-  let jset := (unexp.filter (fun f => (flagsOf t f).2 || allSet.contains ("Set" ++ Transfer.pascalS f.name))).map (·.name)
+  let jget := jpick true t accs unexp
+  let jset := jpick false t accs unexp
   let jexp := (vis.filter (fun f => exported f.name)).map (·.name)
   let needJSON := fl.json && (!jexp.isEmpty || !jget.isEmpty || !jset.isEmpty)
   let hasG := fl.getset && (!getE.isEmpty || !getList.isEmpty)
   let hasS := fl.getset && (!setE.isEmpty || !setList.isEmpty)
   let out : NOut :=
-    { params := g.params,
+    { params := params,
       getIfaces := if fl.getset then getE.map (·.1) else [],
       setIfaces := if fl.getset then setE.map (·.1) else [],
       getList := if fl.getset then getList else [],
@@ -299,7 +321,7 @@ def mkAccs (side : MSide) : List Acc :=
 /-- `compatlize` -/
 def pseudo (a : Acc) : MField :=
   if a.getter then { name := a.name, backing := a.name, isGet := true }
-  else { name := a.name, backing := (if a.name.startsWith "Set" then (a.name.drop 3).toString else a.name), isSet := true }
+  else { name := a.name, backing := trimSet a.name, isSet := true }
 
 /-- inner loop of `makeCtorMatch` for one field `f` over the parameters -/
 def ctorInner (f : MField) : List CParam → List String → List CParam × List String
@@ -316,23 +338,24 @@ def ctorMatch : List MField → List CParam → List String → List CParam × L
   | [], ps, w => (ps, w)
   | f :: fs, ps, w => let r := ctorInner f ps w; ctorMatch fs r.1 r.2
 
-/-- `makeTypeMatch`, both directions at once.  State: write-sets, and the `Target` of every source /
-    destination member (assoc lists, last write wins – the code overwrites the pointer) -/
+/-- `makeTypeMatch`, both directions at once.  State: write-sets (keyed by member NAME, as in the code), and
+    the `Target` pointer of every source / destination member (keyed by the member's position in its list;
+    assoc lists, last write wins – the code overwrites the pointer) -/
 structure TM where
   wDest : List String
   wSrc : List String
-  tgtOfSrc : List (String × MField) := []   -- f1.Target (used by ToX)
-  tgtOfDest : List (String × MField) := []  -- f2.Target (used by FromX)
+  tgtOfSrc : List (Nat × MField) := []   -- f1.Target (used by ToX)
+  tgtOfDest : List (Nat × MField) := []  -- f2.Target (used by FromX)
 
-def tmPair (s : TM) (f1 f2 : MField) : TM :=
-  if !canNameMatch f1 f2 then s else
-  let s1 := if !s.wDest.contains f2.name && !f2.isGet
-    then { s with wDest := f2.name :: s.wDest, tgtOfSrc := (f1.name, f2) :: s.tgtOfSrc } else s
-  if !s1.wSrc.contains f1.name && !f1.isGet
-    then { s1 with wSrc := f1.name :: s1.wSrc, tgtOfDest := (f2.name, f1) :: s1.tgtOfDest } else s1
+def tmPair (s : TM) (f1 : MField × Nat) (f2 : MField × Nat) : TM :=
+  if !canNameMatch f1.1 f2.1 then s else
+  let s1 := if !s.wDest.contains f2.1.name && !f2.1.isGet
+    then { s with wDest := f2.1.name :: s.wDest, tgtOfSrc := (f1.2, f2.1) :: s.tgtOfSrc } else s
+  if !s1.wSrc.contains f1.1.name && !f1.1.isGet
+    then { s1 with wSrc := f1.1.name :: s1.wSrc, tgtOfDest := (f2.2, f1.1) :: s1.tgtOfDest } else s1
 
 def typeMatch (srcL destL : List MField) (s : TM) : TM :=
-  srcL.foldl (fun s f1 => destL.foldl (fun s f2 => tmPair s f1 f2) s) s
+  srcL.zipIdx.foldl (fun s f1 => destL.zipIdx.foldl (fun s f2 => tmPair s f1 f2) s) s
 
 /-- end of `makeCtorMatch`: parameters without a target get their zero literal -/
 def fillZero (ps : List CParam) : List CParam := ps.map (fun p => if p.target.isNone then { p with zero := true } else p)
@@ -349,31 +372,39 @@ def argFrom (p : CParam) : List String :=
     | some f => [f.name]
     | none => [])
 
+/-- parseCtors / parseMethods assign only for ShootNew types (`own`); otherwise the field keeps the previous
+    type's value when it leaks, and is empty in a fresh generator -/
+def pick {α : Type} (own : Bool) (fresh : List α) (leak : Bool) (carried : List α) : List α :=
+  if own then fresh else if leak then carried else []
+
+/-- MakeData from `parseManual` on, given the four lists -/
+def mapCore (t : MType) (dest : MSide) (srcCtor destCtor : List CParam) (srcAcc destAcc : List Acc) : MSt × Option MOut :=
+  -- makeCompatible
+  let srcL := t.src.fields.map (fun n => ({ name := n } : MField)) ++ srcAcc.map pseudo
+  let destL := dest.fields.map (fun n => ({ name := n } : MField)) ++ destAcc.map pseudo
+  -- makeCtorMatch (write-sets were emptied by parseManual)
+  let r1 := ctorMatch srcL destCtor []
+  let r2 := ctorMatch destL srcCtor []
+  let destCtor' := fillZero r1.1
+  let srcCtor' := fillZero r2.1
+  let toCtor := if destCtor'.any (·.target.isSome) then some (destCtor'.flatMap argTo) else none
+  let fromCtor := if srcCtor'.any (·.target.isSome) then some (srcCtor'.flatMap argFrom) else none
+  -- makeTypeMatch
+  let tm := typeMatch srcL destL { wDest := r1.2, wSrc := r2.2 }
+  let toWrites := srcL.zipIdx.filterMap (fun f => (tm.tgtOfSrc.lookup f.2).map (fun d => (d.name, f.1.name)))
+  let fromWrites := destL.zipIdx.filterMap (fun f => (tm.tgtOfDest.lookup f.2).map (fun s => (s.name, f.1.name)))
+  ({ srcCtor := srcCtor', destCtor := destCtor', srcAcc := srcAcc, destAcc := destAcc, writeSrc := tm.wSrc, writeDest := tm.wDest },
+   some { toCtor := toCtor, toWrites := toWrites, fromCtor := fromCtor, fromWrites := fromWrites })
+
 def mapStep (lk : Leaks) (_files : Disk) (st : MSt) (t : MType) : MSt × Option MOut :=
   match t.dest with
   | none => (st, none)      -- `-type=` list: fatal (outside this model); otherwise the type is skipped
   | some dest =>
-    -- parseCtors / parseMethods: only for ShootNew types
-    let srcCtor := if t.src.shootNew then mkParams t.src else if lk.mapCtor then st.srcCtor else []
-    let destCtor := if dest.shootNew then mkParams dest else if lk.mapCtor then st.destCtor else []
-    let srcAcc := if t.src.shootNew then mkAccs t.src else if lk.mapAcc then st.srcAcc else []
-    let destAcc := if dest.shootNew then mkAccs dest else if lk.mapAcc then st.destAcc else []
-    -- makeCompatible
-    let srcL := t.src.fields.map (fun n => ({ name := n } : MField)) ++ srcAcc.map pseudo
-    let destL := dest.fields.map (fun n => ({ name := n } : MField)) ++ destAcc.map pseudo
-    -- makeCtorMatch (write-sets were emptied by parseManual)
-    let r1 := ctorMatch srcL destCtor []
-    let r2 := ctorMatch destL srcCtor []
-    let destCtor' := fillZero r1.1
-    let srcCtor' := fillZero r2.1
-    let toCtor := if destCtor'.any (·.target.isSome) then some (destCtor'.flatMap argTo) else none
-    let fromCtor := if srcCtor'.any (·.target.isSome) then some (srcCtor'.flatMap argFrom) else none
-    -- makeTypeMatch
-    let tm := typeMatch srcL destL { wDest := r1.2, wSrc := r2.2 }
-    let toWrites := srcL.filterMap (fun f => (tm.tgtOfSrc.lookup f.name).map (fun d => (d.name, f.name)))
-    let fromWrites := destL.filterMap (fun f => (tm.tgtOfDest.lookup f.name).map (fun s => (s.name, f.name)))
-    ({ srcCtor := srcCtor', destCtor := destCtor', srcAcc := srcAcc, destAcc := destAcc, writeSrc := tm.wSrc, writeDest := tm.wDest },
-     some { toCtor := toCtor, toWrites := toWrites, fromCtor := fromCtor, fromWrites := fromWrites })
+    mapCore t dest
+      (pick t.src.shootNew (mkParams t.src) lk.mapCtor st.srcCtor)
+      (pick dest.shootNew (mkParams dest) lk.mapCtor st.destCtor)
+      (pick t.src.shootNew (mkAccs t.src) lk.mapAcc st.srcAcc)
+      (pick dest.shootNew (mkAccs dest) lk.mapAcc st.destAcc)
 
 def mapMachine (lk : Leaks) : Machine MSt MType MOut :=
   { init := {}, step := mapStep lk, stale := fun _ => false, gfile := fun t _ => { name := t.name, defs := [] } }
